@@ -29,8 +29,8 @@ def foldInt (op : BinOp) (t : Ty) (a b : Int) : FoldRes :=
   | .add => limit t (a + b)
   | .sub => limit t (a - b)
   | .mul => limit t (a * b)
-  | .idiv => if b = 0 then .unfolded else limit t (pyFloorDiv a b)
-  | .mod => if b = 0 then .unfolded else limit t (pyMod a b)
+  | .idiv => if b = 0 then .unfolded else limit t (qbIDiv a b)
+  | .mod => if b = 0 then .unfolded else limit t (qbMod a b)
   | .and => limit t (iand a b)
   | .or => limit t (ior a b)
   | .xor => limit t (ixor a b)
